@@ -26,6 +26,18 @@ def copy_repo(repo, dst):
     subprocess.check_call(["rsync", "-a", "--exclude", "/target", "--exclude", "/.git", repo.rstrip("/") + "/", dst + "/"])
 
 
+def parse_silent(path):
+    out = []
+    with open(path) as f:
+        for line in f:
+            m = re.match(r"^#\s*expect-silent:\s*(.+)$", line)
+            if m:
+                out += [x.strip() for x in m.group(1).split(",") if x.strip()]
+            if line.startswith("--- ") or line.startswith("diff "):
+                break
+    return out
+
+
 def parse_header(path):
     exp = []
     with open(path) as f:
@@ -75,6 +87,12 @@ def check_patch(prop, patch, repo="/repo"):
         known = {e["key"] for e in load_known() if e.get("status") == "known" and e.get("property") == prop}
         newkeys = [k for k in keys if k not in known]
         newrules = sorted({v["rule"] for v in R2.violations if v["key"] not in known})
+        silent = parse_silent(patch)
+        if silent:
+            bad = [k for k in keys if any(k.startswith(s_ + "|") for s_ in silent)]
+            if bad:
+                return "missed", "control variant (the rule must stay silent on it) but fired %s" % bad, R2.violations
+            return "detected", "control: %s silent as required; other keys %s" % (silent, newkeys), R2.violations
         if exp:
             hit = [e for e in exp if any(e == r or k.startswith(e + "|") or e in k for r in newrules for k in newkeys)]
             if hit:
